@@ -57,7 +57,7 @@ impl<C: CounterTrait> Checker<C> for RejectChecker<C> {
             );
         }
 
-        let max_count = token_count + owner.rule().burst_count;
+        let max_count = token_count.saturating_add(owner.rule().burst_count);
         if batch_count as u64 > max_count {
             let msg = format!("hotspot reject check blocked, request batch count is more than max token count, arg: {:?}", arg);
             return TokenResult::new_blocked_with_cause(
@@ -83,7 +83,8 @@ impl<C: CounterTrait> Checker<C> for RejectChecker<C> {
             // Calculate the time duration since last token was added.
             let pass_time =
                 current_time_in_ms as i64 - last_add_token_time_arc.load(Ordering::SeqCst) as i64;
-            if pass_time > (owner.rule().duration_in_sec * 1000) as i64 {
+            let duration_in_ms = owner.rule().duration_in_sec.saturating_mul(1000);
+            if pass_time > 0 && pass_time as u64 > duration_in_ms {
                 // Refill the tokens because statistic window has passed.
                 let left_count = max_count - batch_count as u64;
                 let old_qps_arc = token_counter.add_if_absent(arg.clone(), left_count);
@@ -95,13 +96,14 @@ impl<C: CounterTrait> Checker<C> for RejectChecker<C> {
                 let old_qps_arc = old_qps_arc.unwrap();
                 // refill token
                 let rest_qps = old_qps_arc.load(Ordering::SeqCst);
+                // widened: huge thresholds or bursts must neither wrap nor panic
                 let to_add_token_num =
-                    pass_time as u64 * token_count / (owner.rule().duration_in_sec * 1000);
-                let new_qps = {
-                    if to_add_token_num + rest_qps > max_count {
-                        max_count as i64 - batch_count as i64
+                    pass_time as u128 * token_count as u128 / duration_in_ms as u128;
+                let new_qps: i128 = {
+                    if to_add_token_num + rest_qps as u128 > max_count as u128 {
+                        max_count as i128 - batch_count as i128
                     } else {
-                        to_add_token_num as i64 + rest_qps as i64 - batch_count as i64
+                        to_add_token_num as i128 + rest_qps as i128 - batch_count as i128
                     }
                 };
 
